@@ -36,25 +36,38 @@ pub struct ChannelClosed;
 impl<T> Sender<T> {
     pub fn send(&mut self, value: T) -> Result<(), ChannelFull> {
         while let Some(value) = self.pending_messages.pop_front() {
+            #[cfg(feature = "verif")]
+            self.verif_push_point(false, true);
             if let Err(PushError::Full(value)) = self.tx.push(value) {
                 self.pending_messages.push_front(value);
                 return Err(ChannelFull);
             }
         }
 
+        #[cfg(feature = "verif")]
+        self.verif_push_point(false, false);
         self.tx.push(value).map_err(|_| ChannelFull)
     }
 
     pub fn force_send(&mut self, value: T) {
         while let Some(pending) = self.pending_messages.pop_front() {
+            #[cfg(feature = "verif")]
+            self.verif_push_point(true, true);
             if let Err(PushError::Full(pending)) = self.tx.push(pending) {
                 // Keep the order: the new message must not overtake the pending ones.
                 self.pending_messages.push_front(pending);
                 self.pending_messages.push_back(value);
+                #[cfg(feature = "verif")]
+                crate::verif::hit(crate::verif::Point::Park {
+                    q: self.verif_id(),
+                    pending: self.pending_messages.len(),
+                });
                 return;
             }
         }
 
+        #[cfg(feature = "verif")]
+        self.verif_push_point(true, false);
         if let Err(PushError::Full(value)) = self.tx.push(value) {
             self.pending_messages.push_back(value);
         }
@@ -63,6 +76,11 @@ impl<T> Sender<T> {
 
 impl<T> Drop for Sender<T> {
     fn drop(&mut self) {
+        #[cfg(feature = "verif")]
+        crate::verif::hit(crate::verif::Point::SenderDrop {
+            q: self.verif_id(),
+            pending: self.pending_messages.len(),
+        });
         for command in self.pending_messages.drain(..) {
             drop(self.tx.push(command));
         }
@@ -73,6 +91,8 @@ impl<T> Receiver<T> {
     pub fn try_recv(&mut self) -> Result<Option<T>, ChannelClosed> {
         match self.rx.pop() {
             Ok(val) => Ok(Some(val)),
+            #[cfg(feature = "verif")]
+            Err(_) if self.verif_recv_empty_point() => unreachable!(),
             Err(_) if self.rx.is_abandoned() => {
                 // The producer may have pushed its last items after the failed `pop()` above
                 // and before it was dropped, so the queue must be checked once more.
@@ -84,5 +104,34 @@ impl<T> Receiver<T> {
             }
             Err(_) => Ok(None),
         }
+    }
+}
+
+#[cfg(feature = "verif")]
+impl<T> Sender<T> {
+    pub(crate) fn verif_id(&self) -> usize {
+        self.tx.buffer() as *const _ as usize
+    }
+
+    fn verif_push_point(&self, force: bool, replay: bool) {
+        crate::verif::hit(crate::verif::Point::Push {
+            q: self.verif_id(),
+            full: self.tx.is_full(),
+            force,
+            replay,
+            pending: self.pending_messages.len(),
+        });
+    }
+}
+
+#[cfg(feature = "verif")]
+impl<T> Receiver<T> {
+    pub(crate) fn verif_id(&self) -> usize {
+        self.rx.buffer() as *const _ as usize
+    }
+
+    fn verif_recv_empty_point(&self) -> bool {
+        crate::verif::hit(crate::verif::Point::RecvEmpty { q: self.verif_id() });
+        false
     }
 }
